@@ -53,12 +53,13 @@ pub struct ContainerCfg {
 #[derive(Clone, Debug, Serialize, Deserialize)]
 pub enum Path {
     Datum { schema: RS, values: Vec<RV>, validate: bool },
-    DatumSer { type_id: String, values: Vec<J>, target_block_size: Option<usize> },
-    AvroDatumRef { type_id: String, values: Vec<J> },
+    /// `perm` != 0: the record schema lists its fields in another order than the Rust type serializes them
+    DatumSer { type_id: String, values: Vec<J>, target_block_size: Option<usize>, #[serde(default)] perm: u64 },
+    AvroDatumRef { type_id: String, values: Vec<J>, #[serde(default)] perm: u64 },
     Container { schema: RS, cfg: ContainerCfg, ops: Vec<COp> },
     ContainerSer { type_id: String, cfg: ContainerCfg, ops: Vec<SOp> },
     GenericSingle { schema: RS, values: Vec<RV>, cap: usize },
-    SpecificSingle { type_id: String, values: Vec<J>, method: u8, target_block_size: Option<usize> },
+    SpecificSingle { type_id: String, values: Vec<J>, method: u8, target_block_size: Option<usize>, #[serde(default)] perm: u64 },
 }
 
 impl Path {
@@ -278,9 +279,9 @@ fn exec(path: &Path, plan: &SinkPlan) -> Exec {
                     }
                 }
             }
-            Path::DatumSer { type_id, values, target_block_size } => {
+            Path::DatumSer { type_id, values, target_block_size, perm } => {
                 with_corpus!(type_id.as_str(), T => {
-                    let schema = T::get_schema();
+                    let schema = corpus::permuted_schema(&T::get_schema(), *perm);
                     let w = GenericDatumWriter::builder(&schema).maybe_target_block_size(*target_block_size).build().unwrap();
                     for v in values {
                         let t: T = serde_json::from_value(v.clone()).expect("corpus value");
@@ -293,9 +294,9 @@ fn exec(path: &Path, plan: &SinkPlan) -> Exec {
                     }
                 })
             }
-            Path::AvroDatumRef { type_id, values } => {
+            Path::AvroDatumRef { type_id, values, perm } => {
                 with_corpus!(type_id.as_str(), T => {
-                    let schema = T::get_schema();
+                    let schema = corpus::permuted_schema(&T::get_schema(), *perm);
                     let rs = ResolvedSchema::try_from(&schema).unwrap();
                     for v in values {
                         let t: T = serde_json::from_value(v.clone()).expect("corpus value");
@@ -384,9 +385,13 @@ fn exec(path: &Path, plan: &SinkPlan) -> Exec {
                     }
                 }
             }
-            Path::SpecificSingle { type_id, values, method, target_block_size } => {
+            Path::SpecificSingle { type_id, values, method, target_block_size, perm } => {
                 with_corpus!(type_id.as_str(), T => {
-                    let w = SpecificSingleObjectWriter::<T>::builder().maybe_target_block_size(*target_block_size).build();
+                    let w = if *perm != 0 && *method < 2 {
+                        SpecificSingleObjectWriter::<T>::builder().resolved(corpus::permuted_schema(&T::get_schema(), *perm)).unwrap().maybe_target_block_size(*target_block_size).build()
+                    } else {
+                        SpecificSingleObjectWriter::<T>::builder().maybe_target_block_size(*target_block_size).build()
+                    };
                     for v in values {
                         let t: T = serde_json::from_value(v.clone()).expect("corpus value");
                         let before = snap(&sink);
@@ -636,13 +641,13 @@ impl Property for C13 {
                 let id = *wr.pick(&corpus::IDS);
                 let n = wr.range(1, 2) as usize;
                 let values = with_corpus!(id, T => (0..n).map(|_| serde_json::to_value(T::gen(&mut wr)).unwrap()).collect());
-                Path::DatumSer { type_id: id.into(), values, target_block_size: *wr.pick(&[None, Some(1), Some(64)]) }
+                Path::DatumSer { type_id: id.into(), values, target_block_size: *wr.pick(&[None, Some(1), Some(64)]), perm: if wr.chance(1, 2) { 0 } else { wr.next_u64() | 1 } }
             }
             3 => {
                 let id = *wr.pick(&corpus::IDS);
                 let n = wr.range(1, 2) as usize;
                 let values = with_corpus!(id, T => (0..n).map(|_| serde_json::to_value(T::gen(&mut wr)).unwrap()).collect());
-                Path::AvroDatumRef { type_id: id.into(), values }
+                Path::AvroDatumRef { type_id: id.into(), values, perm: if wr.chance(1, 2) { 0 } else { wr.next_u64() | 1 } }
             }
             4..=6 => {
                 let gs = gen_schema(&mut wr, 3, true);
@@ -699,6 +704,7 @@ impl Property for C13 {
                     values,
                     method: wr.below(3) as u8,
                     target_block_size: *wr.pick(&[None, Some(1), Some(64)]),
+                    perm: if wr.chance(1, 2) { 0 } else { wr.next_u64() | 1 },
                 }
             }
         };
@@ -839,21 +845,21 @@ impl Property for C13 {
                     push(Path::Datum { schema: s2, values: v2, validate: *validate });
                 }
             }
-            Path::DatumSer { type_id, values, target_block_size } => {
+            Path::DatumSer { type_id, values, target_block_size, perm } => {
                 for i in 0..values.len() {
                     if values.len() > 1 {
                         let mut v = values.clone();
                         v.remove(i);
-                        push(Path::DatumSer { type_id: type_id.clone(), values: v, target_block_size: *target_block_size });
+                        push(Path::DatumSer { type_id: type_id.clone(), values: v, target_block_size: *target_block_size, perm: *perm });
                     }
                 }
             }
-            Path::AvroDatumRef { type_id, values } => {
+            Path::AvroDatumRef { type_id, values, perm } => {
                 for i in 0..values.len() {
                     if values.len() > 1 {
                         let mut v = values.clone();
                         v.remove(i);
-                        push(Path::AvroDatumRef { type_id: type_id.clone(), values: v });
+                        push(Path::AvroDatumRef { type_id: type_id.clone(), values: v, perm: *perm });
                     }
                 }
             }
@@ -922,7 +928,7 @@ impl Property for C13 {
                     push(Path::GenericSingle { schema: s2, values: v2, cap: *cap });
                 }
             }
-            Path::SpecificSingle { type_id, values, method, target_block_size } => {
+            Path::SpecificSingle { type_id, values, method, target_block_size, perm } => {
                 for i in 0..values.len() {
                     if values.len() > 1 {
                         let mut v = values.clone();
@@ -932,6 +938,7 @@ impl Property for C13 {
                             values: v,
                             method: *method,
                             target_block_size: *target_block_size,
+                            perm: *perm,
                         });
                     }
                 }
